@@ -53,6 +53,13 @@ CHECKS = {
    note="Timestamps compared modulo 2^32 and key type as sign-extended 16 bits (the format stores unsigned fields). Lookup alphabet avoids empty keys and timestamps >= 2^31 (signedness of 'newest' is not settled by the statement). Native byte order for version 1 is little-endian on this platform.",
    technique="bounded-exhaustive enumeration of file models and lookups on the real code against an independent format implementation and a model filter",
    engine="enum"),
+ "C15": dict(
+   category="model_checking",
+   text="Credential cache files rendered by an independent writer from an enumerated model: version 1-4 x five v4 header shapes (0-2 fields, unknown tags) x four default principals (0-3 components, empty realm) x {no credential, each of 14 credential shapes covering key lengths 0-64, unsupported key types, times over the signed 32-bit range, single flag bits, 0-3 addresses and authdata entries, empty/long tickets and second tickets, X-CACHECONF entries, empty names}, all ordered pairs of shapes, sliding windows of 3-6 and the whole alphabet. gokrb5's parse must equal the model in every field; GetEntry/Contains/GetEntries/GetClientCredentials must equal the model filter; a client built with NewFromCCache must serve exactly the cached, time-valid tickets and keys under the virtual clock.",
+   design="DESIGN.md 2/C15",
+   note="Native byte order for versions 1/2 is little-endian on this platform. Key types and address/authdata types are compared as sign-extended 16-bit values. Random payload bytes seeded.",
+   technique="bounded-exhaustive enumeration of file models on the real parser against an independent format writer",
+   engine="enum"),
 }
 
 TODO_REASON = "check not yet built in this revision of /verif (work in progress; see DESIGN.md section 2 for the planned bounded-exhaustive exploration)"
